@@ -35,7 +35,14 @@ def gen(rng, cid, plugin):
     mem_total_kb = rng.choice([16 << 20, (1 << 21) - 4, 1 << 21, (1 << 22) + 8, 1 << 23, 3 << 20])
     swap_kb = rng.choice([0, (1 << 21) - 4, 1 << 21, 1 << 22, 5 << 20, 1 << 20])
     proc = W.proc(mem_total_kb=mem_total_kb, swap_entries=((swap_kb, swap_kb // 3),) if swap_kb else ())
+    # the parent's own protection decides how much of the children's memory.low / memory.min claims counts: none (0), all of
+    # them (max / more than they claim together) or a proportional share (overcommitted)
     cgs = {"/": W.root_cgroup(), "wl": W.cgroup(current=1 << 30)}
+    pl = rng.choice([0, 0, "max", 1 << 20, rnd_size(rng, mode), rnd_size(rng, mode) // 3, 1 << 62])
+    cgs["wl"]["files"]["memory.low"] = "%s\n" % pl
+    if rng.random() < 0.3:
+        cgs["wl"]["files"]["memory.min"] = "%s\n" % rng.choice(["max", rnd_size(rng, mode) // 2, 4096])
+    cgs["wl"]["files"]["memory.current"] = "%d\n" % rng.choice([1 << 30, 1 << 62, rnd_size(rng, mode)])
     pid = 100
     tie = rng.random() < 0.2
     close = not tie and rng.random() < 0.25
